@@ -5,16 +5,26 @@
    strip_code returns a string that is a SUBSEQUENCE of the source text, with and without collapse.
    Totality is structural: the model is a total function; it returns an exception only if the entity
    normaliser does (C15_entities_total covers every named entity of the generated table).
-   The normalize=True variant (subsequence after entities are replaced by their characters) is
-   validated by the oracle, not proved. *)
+   With normalize on the same holds after each entity is replaced by the character it denotes
+   (C15_strip_after_normalising_entities, coq/StripNorm.v: [ntext_code o c] is the text of the tree in which every
+   entity that normalises is replaced by its character - the identity replacement when normalize is off); an
+   entity that does not normalise makes strip_code raise, in the model as in the code. *)
 From Coq Require Import String.
-From MW Require Import PyBase Nodes Builder Flatten Strip StripProofs StripInst.
+From MW Require Import PyBase Nodes Builder Flatten Strip StripProofs StripInst StripNorm.
 From MW.gen Require Import Tables.
 
 Theorem C15_strip_only_removes : forall invisible entity_char o c,
   plain o -> wf_code c ->
   exists s, strip_code invisible entity_char o c = Ok s /\ subseq s (str_code c).
 Proof. exact strip_code_subseq_lemma. Qed.
+
+Theorem C15_strip_after_normalising_entities : forall invisible entity_char o c,
+  keep_params o = false -> wf_code c ->
+  match strip_code invisible entity_char o c with
+  | Ok s => subseq s (ntext_code entity_char o c)
+  | _ => True
+  end.
+Proof. exact strip_code_subseqn_lemma. Qed.
 
 Theorem C15_collapse_only_removes : forall s, subseq (collapse_str s) s.
 Proof. exact collapse_subseq. Qed.
@@ -35,6 +45,7 @@ Theorem C15_numeric_boundaries :
 Proof. vm_compute. repeat split; reflexivity. Qed.
 
 Print Assumptions C15_strip_only_removes.
+Print Assumptions C15_strip_after_normalising_entities.
 Print Assumptions C15_collapse_only_removes.
 Print Assumptions C15_entities_total.
 Print Assumptions C15_numeric_boundaries.
@@ -44,3 +55,10 @@ Example C15_example :
     [NText [97; 10; 10; 10; 98]%N; NTemplate [NText [116%N]] []; NWikilink [NText [80%N]] (Some [NText [120%N]])]
   = Ok [97; 10; 10; 98; 120]%N.
 Proof. vm_compute. reflexivity. Qed.
+
+(* normalize on: "a&amp;b" strips to "a&b", a subsequence of the normalised source and NOT of the source *)
+Example C15_normalised_example :
+  let o := {| normalize := true; collapse := false; keep_params := false |} in
+  let c := [NText [97%N]; NEntity [97; 109; 112]%N true false [120%N]; NText [98%N]] in
+  py_strip_code o c = Ok [97; 38; 98]%N /\ ntext_code py_entity_char o c = [97; 38; 98]%N.
+Proof. vm_compute. split; reflexivity. Qed.
